@@ -93,9 +93,20 @@ void op_fault(op_t *o, int f) { if (o->nf < OP_MAXFAULT) o->f[o->nf++] = f; }
 
 static void enc(FILE *fp, const unsigned char *s, size_t n)
 {
+    /* compact forms for long generated payloads: @rep:BYTE:N and @seq:START:N (byte i = 1 + (START+i) % 255) */
+    if (n >= 24) {
+        size_t i;
+        for (i = 1; i < n && s[i] == s[0]; i++);
+        if (i == n) { fprintf(fp, "@rep:%d:%zu", s[0], n); return; }
+        if (s[0] >= 1) {
+            int start = s[0] - 1;
+            for (i = 1; i < n && s[i] == (unsigned char)(1 + (start + i) % 255); i++);
+            if (i == n) { fprintf(fp, "@seq:%d:%zu", start, n); return; }
+        }
+    }
     for (size_t i = 0; i < n; i++) {
         unsigned char c = s[i];
-        if (c > 32 && c < 127 && c != '%') fputc(c, fp);
+        if (c > 32 && c < 127 && c != '%' && c != '@') fputc(c, fp);
         else fprintf(fp, "%%%02X", c);
     }
 }
@@ -103,9 +114,19 @@ static int hexv(int c) { return isdigit(c) ? c - '0' : (c >= 'A' && c <= 'F') ? 
 static unsigned char *dec(const char *s, size_t *n)
 {
     size_t l = strlen(s), k = 0;
-    unsigned char *d = malloc(l + 1);
+    unsigned char *d;
+    int a; size_t cnt;
+    if (sscanf(s, "@rep:%d:%zu", &a, &cnt) == 2 && cnt <= (1u << 24)) {
+        d = malloc(cnt + 1); memset(d, a, cnt); d[cnt] = 0; *n = cnt; return d;
+    }
+    if (sscanf(s, "@seq:%d:%zu", &a, &cnt) == 2 && cnt <= (1u << 24)) {
+        d = malloc(cnt + 1);
+        for (size_t i = 0; i < cnt; i++) d[i] = (unsigned char)(1 + ((size_t)a + i) % 255);
+        d[cnt] = 0; *n = cnt; return d;
+    }
+    d = malloc(l + 1);
     for (size_t i = 0; i < l; i++) {
-        if (s[i] == '%' && i + 2 < l + 0 + 1 && hexv(s[i + 1]) >= 0 && hexv(s[i + 2]) >= 0) {
+        if (s[i] == '%' && i + 2 < l + 1 && hexv(s[i + 1]) >= 0 && hexv(s[i + 2]) >= 0) {
             d[k++] = (unsigned char)(hexv(s[i + 1]) * 16 + hexv(s[i + 2]));
             i += 2;
         } else d[k++] = (unsigned char)s[i];
